@@ -2,13 +2,16 @@ package rules
 
 import (
 	"fmt"
+	"go/ast"
 	"go/token"
 	"go/types"
+	"sort"
 	"strings"
 
 	"golang.org/x/tools/go/ssa"
 
 	"s2scheck/internal/flow"
+	"s2scheck/internal/load"
 	"s2scheck/internal/report"
 )
 
@@ -592,4 +595,87 @@ func classifyBypassCond(cond ssa.Value, side bool) string {
 		}
 	}
 	return "?"
+}
+
+// checkVisitLibrary validates, against the source of github.com/keilerkonzept/visit in the module
+// cache, the traversal the type-graph model assumes: children are queued for map (keys and values),
+// slice/array, interface/pointer (element) and struct (every field); Skip drops the children, Stop
+// ends the walk.
+func checkVisitLibrary(c *Ctx, res *report.Result, rule string) {
+	p, err := load.Load(load.Options{RepoDir: c.RepoDir, Overlay: c.Overlay, Only: []string{visitPath}, NoSSA: true, AnyModule: true})
+	construct := "visit library traversal model"
+	if err != nil {
+		res.Undec(rule, construct, "", "cannot load "+visitPath+" from source: "+err.Error())
+		return
+	}
+	var kinds []string
+	found := false
+	var skipContinue, stopReturn bool
+	for _, pk := range p.All {
+		if pk.PkgPath != visitPath {
+			continue
+		}
+		for _, f := range pk.Syntax {
+			for _, d := range f.Decls {
+				fd, ok := d.(*ast.FuncDecl)
+				if !ok || fd.Body == nil {
+					continue
+				}
+				switch fd.Name.Name {
+				case "queue":
+					found = true
+					ast.Inspect(fd.Body, func(n ast.Node) bool {
+						cc, ok := n.(*ast.CaseClause)
+						if !ok {
+							return true
+						}
+						appends := false
+						ast.Inspect(cc, func(m ast.Node) bool {
+							if ce, ok := m.(*ast.CallExpr); ok {
+								if id, ok := ce.Fun.(*ast.Ident); ok && id.Name == "append" {
+									appends = true
+								}
+							}
+							return true
+						})
+						if appends {
+							for _, e := range cc.List {
+								if sel, ok := e.(*ast.SelectorExpr); ok {
+									kinds = append(kinds, sel.Sel.Name)
+								}
+							}
+						}
+						return true
+					})
+				case "ValuesUnsafe":
+					ast.Inspect(fd.Body, func(n ast.Node) bool {
+						cc, ok := n.(*ast.CaseClause)
+						if !ok || len(cc.List) != 1 || len(cc.Body) != 1 {
+							return true
+						}
+						id, _ := cc.List[0].(*ast.Ident)
+						if id == nil {
+							return true
+						}
+						switch st := cc.Body[0].(type) {
+						case *ast.BranchStmt:
+							if id.Name == "Skip" && st.Tok == token.CONTINUE {
+								skipContinue = true
+							}
+						case *ast.ReturnStmt:
+							if id.Name == "Stop" {
+								stopReturn = true
+							}
+						}
+						return true
+					})
+				}
+			}
+		}
+	}
+	sort.Strings(kinds)
+	want := []string{"Array", "Interface", "Map", "Ptr", "Slice", "Struct"}
+	ok := found && strings.Join(kinds, ",") == strings.Join(want, ",") && skipContinue && stopReturn
+	res.Check(ok, rule, construct, "", "visit.queue enqueues children for "+strings.Join(kinds, ",")+"; Skip continues without children; Stop returns",
+		fmt.Sprintf("the traversal of %s no longer matches the model (kinds with children: %v, skip=%v stop=%v)", visitPath, kinds, skipContinue, stopReturn))
 }
